@@ -76,7 +76,14 @@ def plan(c):
 
 def auto_freq(c, K):
     """restart frequency that makes the module write its automatic restart file at step index K (and not later)"""
-    return c.get("it0", 0) + K
+    n = c.get("it0", 0) + K
+    if n < 2 ** 31:
+        return n
+    # the engine's restart frequency is an int: a small divisor of the step (the file of step K overwrites earlier ones)
+    for f in (12, 7, 6, 5, 3, 2):
+        if n % f == 0:
+            return f
+    return 1
 
 
 def scenario(c, d, runs=None):
